@@ -119,6 +119,26 @@ class Norm:
                     for p2 in parts[1:]:
                         out = "(%s|%s)" % (out, p2)
                     return out
+            if op in ("+", "*", "&&", "||", "|", "&", "^"):
+                # associative and commutative: one flat, sorted operand list, however the chain was parenthesised or ordered
+                ops = []
+
+                def flat2(x):
+                    x0 = strip(x)
+                    while isinstance(x0, dict) and x0.get("k") == "Paren":
+                        x0 = strip(x0.get("e"))
+                    if isinstance(x0, dict) and x0.get("k") == "Bin" and x0.get("op") == op:
+                        flat2(x0["l"])
+                        flat2(x0["r"])
+                    else:
+                        ops.append(self.key(x, depth))
+                flat2(e)
+                if len(ops) > 2:
+                    ops.sort()
+                    out = ops[0]
+                    for p2 in ops[1:]:
+                        out = "(%s%s%s)" % (out, op, p2)
+                    return out
             if op in ("+", "*", "&&", "||", "|", "&", "==", "!="):
                 l, r = sorted([l, r])
             if op == "<<" and r.isdigit() and not l.isdigit():
@@ -131,7 +151,15 @@ class Norm:
                 return r if l == "0" else l
             return "(%s%s%s)" % (l, op, r)
         if k == "Cond":
-            return "(%s?%s:%s)" % (self.key(e["c"], depth), self.key(e["a"], depth), self.key(e["e"], depth))
+            # one polarity: of `c ? a : b` and `!c ? b : a` (negation in normal form) the one whose condition prints smaller
+            k1 = self.key(e["c"], depth)
+            k2 = self.key({"k": "Un", "op": "!", "e": e["c"]}, depth)
+            a, b = self.key(e["a"], depth), self.key(e["e"], depth)
+            if k2 < k1 and not k2.startswith("!"):
+                return "(%s?%s:%s)" % (k2, b, a)
+            if k1.startswith("!") and not k2.startswith("!"):
+                return "(%s?%s:%s)" % (k2, b, a)
+            return "(%s?%s:%s)" % (k1, a, b)
         if k == "Index":
             return self.key(e["b"], depth) + "[" + self.key(e["i"], depth) + "]"
         if k == "Construct":
